@@ -143,6 +143,21 @@ fn subscriber_for(index: u64, chunk: u64) -> bool {
     (index / chunk.max(1)) % 2 == 1
 }
 
+/// Every fifth chunk of runs executes under the build without debug assertions (if it has been built).
+fn nodebug_for(index: u64, chunk: u64) -> bool {
+    (index / chunk.max(1)) % 5 == 4
+}
+
+/// The harness binary of the given build kind: target/debug/verif-sim or target/nodebug/verif-sim.
+fn exe_of(nodebug: bool) -> PathBuf {
+    let me = std::env::current_exe().expect("current_exe");
+    if nodebug == !cfg!(debug_assertions) {
+        return me;
+    }
+    let other = root().join("target").join(if nodebug { "nodebug" } else { "debug" }).join("verif-sim");
+    if other.exists() { other } else { me }
+}
+
 /// Generate the plan of run `index`.
 fn make_plan(prop: &str, tier: Tier, base: u64, index: u64, chunk: u64) -> Option<(usize, Value)> {
     let scens = registry::scenarios(prop);
@@ -170,6 +185,8 @@ fn make_plan(prop: &str, tier: Tier, base: u64, index: u64, chunk: u64) -> Optio
     plan["base_seed"] = json!(base);
     plan["tier"] = json!(tier.name());
     plan["subscriber"] = json!(subscriber_for(index, chunk));
+    // (describes the build that executes the run; which chunks go to which build is the driver's decision)
+    plan["no_debug_assertions"] = json!(!cfg!(debug_assertions));
     Some((which, plan))
 }
 
@@ -291,6 +308,7 @@ fn worker(args: &[String]) -> i32 {
         *scen_runs.entry(scen.name().to_string()).or_insert(0) += 1;
         let o = &rep.outcome;
         *stats.entry("steps").or_insert(0) += o.steps;
+        *stats.entry("runs_without_debug_assertions").or_insert(0) += (!cfg!(debug_assertions)) as u64;
         *stats.entry("choices").or_insert(0) += o.choices;
         *stats.entry("switches").or_insert(0) += o.switches;
         *stats.entry("preemptions").or_insert(0) += o.preemptions;
@@ -414,6 +432,17 @@ fn replay(args: &[String]) -> i32 {
         return 2;
     };
     let plan0 = file.get("plan").cloned().unwrap_or_else(|| file.clone());
+    // a run recorded under the other build (with / without debug assertions) is replayed by that build
+    let want_nodebug = jb(&plan0, "no_debug_assertions", false);
+    if want_nodebug != !cfg!(debug_assertions) {
+        let other = exe_of(want_nodebug);
+        if other != std::env::current_exe().expect("current_exe") {
+            use std::os::unix::process::CommandExt;
+            let err = Command::new(other).args(&args[1..]).exec();
+            eprintln!("cannot start the other build: {err}");
+            return 2;
+        }
+    }
     process_setup(jb(&plan0, "subscriber", false), Some(0));
     *WEDGE.lock().unwrap() = Some(WedgeReport { prop: String::new(), scenario: String::new(), index: 0, plan: Value::Null, out: arg(args, "--emit").map(PathBuf::from), replay_mode: true, base: 0 });
     let Some((rep, _plan)) = run_plan_file(&file, trace) else {
@@ -532,7 +561,7 @@ struct Running {
 fn spawn_worker(prop: &str, tier: Tier, base: u64, start: u64, count: u64, chunk: u64, cpu: usize, tmpdir: &Path) -> Running {
     let out = tmpdir.join(format!("w-{start}.json"));
     let _ = std::fs::remove_file(&out);
-    let exe = std::env::current_exe().expect("current_exe");
+    let exe = exe_of(nodebug_for(start, chunk));
     let child = Command::new(exe)
         .args([
             "worker", "--prop", prop, "--tier", tier.name(), "--seed", &base.to_string(), "--start", &start.to_string(),
@@ -553,7 +582,7 @@ fn locate_crash(prop: &str, tier: Tier, base: u64, start: u64, count: u64, chunk
     use std::os::unix::process::ExitStatusExt;
     let crashes = |s: u64, c: u64| -> bool {
         let out = tmpdir.join(format!("crash-{s}-{c}.json"));
-        let exe = std::env::current_exe().expect("current_exe");
+        let exe = exe_of(nodebug_for(s, chunk));
         let st = Command::new(exe)
             .args(["worker", "--prop", prop, "--tier", tier.name(), "--seed", &base.to_string(), "--start", &s.to_string(), "--count", &c.to_string(), "--chunk", &chunk.to_string(), "--out", out.to_str().unwrap(), "--recheck", "0"])
             .env("VERIF_WATCHDOG_S", "120")
@@ -839,6 +868,7 @@ fn check(args: &[String]) -> i32 {
             "blocking_operations": m.stats.get("blocks").copied().unwrap_or(0),
             "timeouts_fired": m.stats.get("timeouts").copied().unwrap_or(0),
             "inconclusive_runs_step_budget": m.stats.get("inconclusive_runs").copied().unwrap_or(0),
+            "runs_under_the_build_without_debug_assertions": m.stats.get("runs_without_debug_assertions").copied().unwrap_or(0),
             "faults_fired": m.faults,
             "reach_probes": m.probes,
             "probes_unreached": unreached,
@@ -908,7 +938,7 @@ impl Tester {
         let p = self.dir.join(format!("cand-{}.json", self.n));
         let e = self.dir.join(format!("cand-{}.out.json", self.n));
         write_json(&p, file);
-        let exe = std::env::current_exe().expect("exe");
+        let exe = exe_of(jb(file.get("plan").unwrap_or(file), "no_debug_assertions", false));
         let mut child = Command::new(exe)
             .args(["replay", p.to_str().unwrap(), "--quiet", "--emit", e.to_str().unwrap()])
             .env("VERIF_WATCHDOG_S", "30")
